@@ -2,12 +2,14 @@
 
 I  : codebasin.preprocessor (Lexer, MacroExpander's `defined`, ExpressionEvaluator) observed through
      IfNode.evaluate_for_platform, ExpressionEvaluator(Lexer(s).tokenize()).evaluate() and the branch of
-     `#if E / #else / #endif` that finder.find attributes.
-M  : Model/C02.v (lexer + restricted expander + precedence climbing over the GENERATED tables + 64-bit values).
-S  : Spec/C02.v `sem` on the expression AST (ISO C 6.6 / 6.10.1), also computed by the independent Python
-     oracle c02_util.sem; both validated against gcc -E.
+     `#if E / #else / #endif` (and of `#if E / #elif X / #else / #endif`) that finder.find attributes.
+M  : extracted run_C02 (Model/C02run.v): text -> Model/C02lex.v tokenize -> Model/C02.v expand -> evaluate, over the
+     tables GENERATED from preprocessor.py; also compares its tokens with the real Lexer's and the real Lexer's with
+     the Coq unparser `tokens dt_source 0 e`.
+S  : Spec/C02.v `sem` on the expression AST (ISO C 6.6 / 6.10.1), cross-checked on every case against the independent
+     Python oracle c02_util.sem, which is validated against gcc -E.
 
-case = [text, [[macro, body text]...], ast | 0, [[macro, body ast | 0]...] | 0, find_route(0/1)]
+case = [text, [[macro, body text]...], ast | 0, [[macro, body ast | 0]...] | 0, route(0/1/2)(, [elif text, elif truth | null])]
 """
 from __future__ import annotations
 
@@ -62,10 +64,12 @@ class C02(Check):
             "ISO C's grammar requires; every expression also appears wrapped as (E)==k, (E)!=k and ((E)-k)-1<0 so that its VALUE and "
             "signedness - not only its truth - are observed.  Blocks: exhaustive (all ASTs up to an operator bound over a literal set), "
             "all ordered operator pairs/triples with ?:, random (depth <= 6, UB-free by construction, unevaluated operands may have UB), "
-            "malformed (lexeme soup and mutated renderings; only I~M is compared there).  Non-trivial = in the quantifier, at least two "
+            "malformed (lexeme soup, mutated renderings, character soup; only I~M - lexer tokens included - is compared there), "
+            "#if/#elif chains through finder.find whose #elif after a taken branch is garbage.  Non-trivial = in the quantifier, at least two "
             "operators, of which at least two of different precedence level, or a literal with suffix/prefix, or a character escape")
     assumptions = [
         "macro expansion beyond `defined` and object-like macros with identifier-free bodies is C03's subject (M answers Unsupported there; never generated)",
+        "str.isdigit/isalpha/isalnum/isprintable are modelled for ASCII; Python's int(str, base) by Model/C02.v py_int; numpy scalar constructors by range checks",
         "right shift of a negative signed value is arithmetic (implementation-defined in ISO C; gcc's choice)",
         "character constants with values >= 128 have implementation-defined sign and are outside the quantifier",
         "inputs gcc diagnoses (signed overflow, division by zero in an evaluated operand, out-of-range shift counts, unsuffixed decimal literals >= 2^63, call syntax) are outside the quantifier",
